@@ -94,7 +94,7 @@ func c15Jobs(tier string) []Job {
 		if tier == "thorough" && len(d.mutators) == 1 {
 			bound = 3
 		}
-		j := Job{Name: "C15/" + d.name()}
+		j := Job{Name: fmt.Sprintf("C15/%s/c%d", d.name(), bound)}
 		if tier == "thorough" {
 			j.Shards = 4
 		}
